@@ -19,6 +19,7 @@ COMPILER_REPLAYS = {
     "u_diagord": ["replay/c13/missing_methods/run.sh"],
     "u_occurs": ["replay/c04/occurs/run.sh"],
     "u_tmono": ["replay/c07/run.sh"],
+    "u_mcall": ["replay/c07/call_instances.sh"],
 }
 
 
